@@ -348,6 +348,8 @@ class TokenizerState:
         self.pos = 0
         self.max = 0
         self.end_progs: list[EndProg] = []
+        # physical lines holding nothing but a backslash continuation are pending: the first non-zero column among them
+        self.cont_indent: int | None = None
 
     def move_next_line(self, readline: Callable[[], str]) -> None:
         self.last_line = self.line
@@ -443,6 +445,8 @@ class EndProg:
 
 def next_statement(state: TokenizerState) -> Generator[TokenInfo, None, bool | None]:
     if not state.line:
+        if state.cont_indent is not None:
+            raise TokenError("EOF in multi-line statement", (state.lnum, 0))
         return False  # break parent loop
     column = altcol = 0
     while state.pos < state.max:  # measure leading whitespace
@@ -460,6 +464,16 @@ def next_statement(state: TokenizerState) -> Generator[TokenInfo, None, bool | N
 
     if state.pos == state.max:
         return False  # break parent loop
+
+    if state.line[state.pos :] in ("\\\n", "\\\r\n"):
+        # nothing but a continuation: the statement starts on the next line; as in CPython the indentation that counts
+        # is the first non-zero one of these lines, else that of the line the statement starts on
+        state.cont_indent = state.cont_indent or column
+        return True  # continue
+    if state.cont_indent is not None:
+        if state.cont_indent:  # both measures take the column of that line (CPython does the same)
+            column = altcol = state.cont_indent
+        state.cont_indent = None
 
     if state.line[state.pos] in "#\r\n":  # skip comments or blank lines
         if state.line[state.pos] == "#":
